@@ -1,6 +1,8 @@
 """C04 — Speech voices every operand.  Decided part: the only Rust code that *deletes* already produced
 speech (optional-word elimination in ReplacementArray::replace_array_string::is_repetitive), plus the
 integer kernels of number-to-words (see DESIGN.md §3 C04)."""
+import os
+
 import kani_run
 import prelude
 import slicer
@@ -78,6 +80,11 @@ HARNESS(optional_word_deletion_loses_nothing, UNW, [str::find => stubs::find, st
 '''
 
 
+def run_repo():
+    import framework
+    return framework.REPO
+
+
 def api_marker_in_middle(vals=None, out=None):
     """Role-level API recipe: ClearSpeak puts an optional word in the middle of an exponent's speech."""
     expr = ("<math><msup><mi>x</mi><mrow><mn>3</mn><mo>+</mo><mfrac><mrow><mi>a</mi><mo>+</mo><mn>1</mn></mrow><mi>b</mi></mfrac></mrow></msup></math>")
@@ -135,6 +142,7 @@ def build(run):
     run.kani(crate_o, lemmas_o, timeout=300)
     crate_i, lemma_i = insert_lemma(run)
     run.kani(crate_i, [lemma_i], timeout=600)
+    ordinal_parse_lemma(run)
     run.kani(c, [dict(id="K-C04-a.optional_word_deletion", harness="optional_word_deletion_loses_nothing",
                       covers=["deletion branch reachable", "kept branch with markers reachable"], role=role,
                       exclusions={"marker-not-at-start": "MARKER_NOT_AT_START"},
@@ -226,6 +234,51 @@ def insert_lemma(run):
                        role=lambda v, o: "children-not-all-selected" if "does not select every child" in o else "insert-order",
                        covers=["largest row reachable", "empty node set reachable"], timeout=600,
                        claim="for a node set of n children the expanded array is xpath[1] (sep xpath[i])_{i=2..n}: every child is spoken once, in order")
+
+
+# ======================================================================================================================
+# Z-C04-g: ToOrdinal reads the digit string of a number with parse::<usize>(): every string that reaches that statement must be readable
+def api_ordinal_big(number):
+    res = mcprobe([("pref", "SpeechStyle ClearSpeak"), ("pref", "ClearSpeak_Fractions Ordinal"), ("mathml", "<math><mfrac><mn>3</mn><mn>%s</mn></mfrac></math>" % number), "speech",
+                   ("pref", "ClearSpeak_Fractions Auto")])
+    return any(r[0] in ("PANIC", "ABORT") for r in res), res[2:4]
+
+
+def ordinal_parse_lemma(run):
+    import re
+    import rxsmt, tables
+    x = slicer.Source.get("src/xpath_functions.rs")
+    imp = x.find("impl ToOrdinal")
+    irr = imp.find("fn compute_irregular_fractional_speech")
+    conv = imp.find("fn convert")
+    no_digit, spx = tables.lazy_regex(x, "NO_DIGIT", within=conv)
+    run.uses(irr, spx)
+    mp = re.search(r"number\s*\.\s*parse(?:::<usize>)?\(\)\s*\.\s*(\w+)", irr.text)
+    if mp is None:
+        # the integer may be read differently now: nothing to decide with this lemma, say so
+        run.queries += 1
+        return run.holds("Z-C04-g.ordinal_digits_readable", note="(compute_irregular_fractional_speech no longer parses the digit string)")
+    mlen = re.search(r"number\.len\(\)\s*>\s*3\s*\*\s*numbers_large\.len\(\)", conv.text)
+    if mlen is None:
+        raise slicer.SliceError("ToOrdinal::convert: length guard `number.len() > 3*numbers_large.len()` not found")
+    defs = open(os.path.join(run_repo(), "Rules", "Languages", "en", "definitions.yaml"), encoding="utf-8").read()
+    mnl = re.search(r"NumbersLarge:\s*\[(.*?)\]", defs, re.S)
+    n_large = len(re.findall(r'"[^"]*"', mnl.group(1)))
+    maxlen = 3 * n_large
+    allowed = "(re.* (re.diff re.allchar %s))" % rxsmt.core_lang(no_digit)        # what passes the `NO_DIGIT.is_match` guard
+    run.bound("Z-C04-g", "every string of <= %d chars (3 x %d NumbersLarge words, en) that passes the %r guard of ToOrdinal::convert" % (maxlen, n_large, no_digit))
+    handled = mp.group(1) not in ("unwrap", "expect")
+    D = "(declare-const s String)\n(assert (str.in_re s %s))\n(assert (<= (str.len s) %d))\n" % (allowed, maxlen)
+
+    def w_big(m):
+        bad, res = api_ordinal_big(m["s"])
+        return ("ordinal-digits-overflow", "ToOrdinal reads the denominator %r with parse::<usize>().unwrap(): get_spoken_text panics (ClearSpeak_Fractions=Ordinal)" % m["s"], {"number": m["s"], "api": res}) if bad else None
+    if handled:
+        run.queries += 1
+        run.holds("Z-C04-g.ordinal_digits_readable.fits_usize", note="(parse failure is handled by .%s)" % mp.group(1))
+    else:
+        run.smt("Z-C04-g.ordinal_digits_readable.fits_usize", D + '(assert (str.in_re s (re.++ (re.range "1" "9") ((_ re.loop 20 20) (re.range "0" "9")) (re.* (re.range "0" "9")))))',
+                get=("s",), witness=w_big, claim="no digit string that reaches `number.parse().unwrap()` is >= 10^20 (> usize::MAX)")
 
 
 # ======================================================================================================================
